@@ -52,6 +52,7 @@ class OptimizeAnalysis:
         self.guards = enclosing_guards(self.fn)
         self._roles()
         self.cfg = CFG_atomic(self.fn, self.sweep_loops)
+        self.cfg_full = CFG(self.fn)
         self._node_roles()
 
     # ------------------------------------------------------------------ helpers
@@ -61,6 +62,28 @@ class OptimizeAnalysis:
     def add(self, key, rule, ok, what="", node=None):
         self.findings.append(Finding(key, rule, bool(ok), what, self.w(node) if node is not None else None))
         return ok
+
+    def resolve(self, expr, stmt, depth=0):
+        """Copy propagation: replace local names in `expr` (evaluated at statement `stmt`) by their unique reaching definitions."""
+        import copy
+        n = self.cfg_full.node_of(stmt)
+        if n is None or depth > 4:
+            return expr
+        oa = self
+
+        class R(ast.NodeTransformer):
+            def visit_Name(self, node):
+                if isinstance(node.ctx, ast.Load) and node.id not in oa.params and node.id != "self":
+                    d = unique_reaching_def(oa.cfg_full, node.id, n)
+                    if d is not None and not any(isinstance(x, ast.Call) and "solve" in ast.unparse(x.func) for x in ast.walk(d)):
+                        dn = None
+                        for m in oa.cfg_full.reachable():
+                            st = oa.cfg_full.stmt[m]
+                            if isinstance(st, ast.Assign) and st.value is d:
+                                dn = st
+                        return oa.resolve(copy.deepcopy(d), dn, depth + 1) if dn is not None else copy.deepcopy(d)
+                return node
+        return R().visit(copy.deepcopy(expr))
 
     # ------------------------------------------------------------------ roles located by effect / shape, not by line
     def _roles(self):
